@@ -187,6 +187,39 @@ Fixpoint create (n : fsnode) (p : list Z) (c : fsnode) : option fsnode :=
       end
   end.
 
+(* removing an entry: a regular file or an empty directory (the harness removes the same entry on disk); the working
+   directory and its ancestors are never removed *)
+Fixpoint remove_entry (n : fsnode) (p : list Z) : option fsnode :=
+  match p with
+  | [] => None
+  | [k] => match n with
+           | FDir es =>
+               match find (fun e => fst e =? k) es with
+               | Some (_, FFile _) | Some (_, FDir []) => Some (FDir (filter (fun e => negb (fst e =? k)) es))
+               | _ => None
+               end
+           | FFile _ => None
+           end
+  | k :: p' =>
+      match n with
+      | FDir es =>
+          match find (fun e => fst e =? k) es with
+          | Some (_, d) => match remove_entry d p' with
+                           | Some d' => Some (FDir (map (fun e => if fst e =? k then (k, d') else e) es))
+                           | None => None
+                           end
+          | None => None
+          end
+      | FFile _ => None
+      end
+  end.
+Fixpoint is_prefix (a b : list Z) : bool :=
+  match a, b with
+  | [], _ => true
+  | x :: a', y :: b' => (x =? y) && is_prefix a' b'
+  | _, [] => false
+  end.
+
 (* DirectoryVisitor: cwd is a path below the scratch root; chdir to something that is not a
    directory fails and leaves cwd unchanged *)
 Definition chdir (fs : fsnode) (cwd p : list Z) : list Z := if p_is_dir fs p then p else cwd.
@@ -218,6 +251,9 @@ Definition path_step (st : fsnode * list Z) (l : list Z) : (fsnode * list Z) * l
   | 41 :: sz :: p => if forallb (fun k => 0 <=? k) p && (0 <=? sz) then
                        match create fs p (FFile sz) with Some fs' => ((fs', cwd), [1]) | None => (st, [PRE]) end
                      else (st, [PRE])
+  | 42 :: p => if forallb (fun k => 0 <=? k) p && negb (is_prefix p cwd) then
+                 match remove_entry fs p with Some fs' => ((fs', cwd), [1]) | None => (st, [PRE]) end
+               else (st, [PRE])
   | 50 :: p => (st, [b2z (p_exists fs p); b2z (p_is_file fs p); b2z (p_is_dir fs p)])
   | 51 :: p => (st, match p_size 64 fs p with
                     | Some (inr sz) => [sz]
